@@ -947,6 +947,15 @@ pub fn form_ok_for(form: Form, lang: Lang) -> bool {
 }
 
 fn rel_or_abs(tape: &mut Tape, from: &str, to: &str) -> String {
+  if from.starts_with("http") && to.starts_with("file:///") {
+    // a remote module naming a local file: the same url can be spelled in
+    // several ways
+    match tape.draw(Stream::World, 4) {
+      1 => return format!("file:/{}", &to["file:///".len()..]),
+      2 => return format!("FILE:///{}", &to["file:///".len()..]),
+      _ => {}
+    }
+  }
   // same directory => relative most of the time
   let fdir = &from[..from.rfind('/').map(|i| i + 1).unwrap_or(0)];
   if to.starts_with(fdir) && !to[fdir.len()..].contains('/') {
@@ -1441,7 +1450,12 @@ pub fn enforce_same_attribute_proviso(w: &mut World) {
     let mut changed = false;
     for it in &mut d.items {
       let t = final_target(w, &resolve_text(w, u, &it.spec));
-      let attr = if *can.get(&t).unwrap_or(&false) {
+      // a text the resolver maps (possibly only for types) reaches a target
+      // that other imports reach by its url: no attribute on such imports
+      let mapped = w.resolver.as_ref().is_some_and(|r| {
+        r.map.contains_key(&it.spec) || r.types_map.contains_key(&it.spec)
+      });
+      let attr = if *can.get(&t).unwrap_or(&false) && !mapped {
         first.get(&t).cloned().unwrap_or(None)
       } else {
         None
